@@ -296,6 +296,8 @@ async def run_batch(programs, hidden, msgs=None, backend='dict'):
                                      f'(uids {[view[s - 1].uid for s in got if s <= len(view)]})'))
         sigs.append((text, tuple(got)))
     await w.close()
+    if hasattr(w, 'cleanup'):
+        w.cleanup()         # the maildir world's temporary directory
     return errors, sigs
 
 
